@@ -102,32 +102,24 @@ async fn file_paths(config: &Config, write: bool) -> PersistenceResult<(PathBuf,
 }
 
 pub(crate) async fn toggle_alternating_files(path: &Path, write: bool) -> PersistenceResult<bool> {
+    // this loader only reads: `write` selects the slot the selector does not name, for the fallback.
+    // The selector file belongs to the current (v3) persistence and is never modified here.
+    let main_is_active = File::open(path).await.is_ok();
     if write {
-        if remove_file(path).await.is_ok() {
-            debug!(
-                "toggle file {} removed, writing to backup",
-                path.to_string_lossy()
-            );
-            Ok(false)
-        } else {
-            File::create(path).await?;
-            debug!(
-                "toggle file {} created, writing to main",
-                path.to_string_lossy()
-            );
-            Ok(true)
-        }
-    } else if File::open(path).await.is_ok() {
         debug!(
-            "toggle file {} exists, reading from main",
-            path.to_string_lossy()
+            "toggle file {} {}, falling back to {}",
+            path.to_string_lossy(),
+            if main_is_active { "exists" } else { "does not exist" },
+            if main_is_active { "backup" } else { "main" },
         );
-        Ok(true)
+        Ok(!main_is_active)
     } else {
         debug!(
-            "toggle file {} does not exists, reading from backup",
-            path.to_string_lossy()
+            "toggle file {} {}, reading from {}",
+            path.to_string_lossy(),
+            if main_is_active { "exists" } else { "does not exist" },
+            if main_is_active { "main" } else { "backup" },
         );
-        Ok(false)
+        Ok(main_is_active)
     }
 }
